@@ -8,6 +8,7 @@ near-miss    : a scoped name with internal whitespace / empty component / mispla
                binding key, block header, reference, macro or import must raise SyntaxError and
                yield no statement for that line (statements before it are yielded).
 """
+import re
 import tokenize
 import warnings
 
@@ -238,10 +239,119 @@ def check_nearmiss(case):
   return ok(['kind:nearmiss', 'why:' + case['why'], 'where:' + case['where']], True)
 
 
+# ------------------------------------------------------------------ arbitrary text (fuzzing)
+SCOPE_RE = re.compile(r'^([a-zA-Z_]\w*(/[a-zA-Z_]\w*)*)?$')
+SEL_RE = re.compile(r'^([a-zA-Z_]\w*\.)*[a-zA-Z_]\w*$')
+REFNAME_RE = re.compile(r'^(([a-zA-Z_]\w*\.)*[a-zA-Z_]\w*/)*([a-zA-Z_]\w*\.)*[a-zA-Z_]\w*$')
+IDENT_RE = re.compile(r'^[a-zA-Z_]\w*$')
+BARE_CR = re.compile(r'\r(?!\n)')
+
+
+def refs_of(v):
+  if isinstance(v, Ref):
+    yield v
+  elif isinstance(v, (list, tuple)):
+    for x in v:
+      yield from refs_of(x)
+  elif isinstance(v, dict):
+    for k, x in v.items():
+      yield from refs_of(k)
+      yield from refs_of(x)
+
+
+def canonical_value(v):
+  if isinstance(v, Ref):
+    return v.t[0] + v.t[1] + ('()' if v.t[0] == '@' and v.t[2] else '')
+  if isinstance(v, list):
+    return '[' + ', '.join(canonical_value(x) for x in v) + ']'
+  if isinstance(v, tuple):
+    return '(' + ', '.join(canonical_value(x) for x in v) + (',' if len(v) == 1 else '') + ')'
+  if isinstance(v, dict):
+    return '{' + ', '.join(f'{canonical_value(k)}: {canonical_value(x)}' for k, x in v.items()) + '}'
+  if isinstance(v, float) and (v != v or v in (float('inf'), float('-inf'))):
+    raise OutOfDomain('non-finite float has no canonical text')
+  if isinstance(v, complex):
+    raise OutOfDomain('complex has no canonical text')
+  return repr(v)
+
+
+def check_fuzz(case):
+  """Invariants of the statement parser on arbitrary text (driven by atheris)."""
+  text = case['text']
+  if '\x00' in text or (BARE_CR.search(text) and not text.isascii()):
+    raise OutOfDomain('CPython tokenizer hazard (NUL / bare CR + non-ASCII)')
+  got = []
+  try:
+    with warnings.catch_warnings():
+      warnings.simplefilter('ignore')
+      for st_ in config_parser.ConfigParser(text, Rec()):
+        got.append(st_)
+    rejected = False
+  except REJECT:
+    rejected = True
+  except (RecursionError, MemoryError):
+    raise OutOfDomain('resource limit')
+  except TypeError as e:
+    if 'unhashable' in str(e):
+      raise OutOfDomain('unhashable dict key (Python raises TypeError too)')
+    raise Violation('wrong-exception-class', f'TypeError: {e} for text {text!r}')
+  except Exception as e:  # pylint: disable=broad-except
+    raise Violation('wrong-exception-class', f'{type(e).__name__}: {e} for text {text!r}')
+  lines = []
+  for st_ in got:
+    if isinstance(st_, config_parser.BindingStatement):
+      require(SCOPE_RE.match(st_.scope) and SEL_RE.match(st_.selector) and
+              (st_.arg_name == '' or IDENT_RE.match(st_.arg_name)), 'malformed-name-recovered',
+              lambda: f'{st_[:3]} from {text!r}')
+      key = (st_.scope + '/' if st_.scope else '') + st_.selector
+      require(key in text and st_.arg_name in text, 'name-not-verbatim-in-source',
+              lambda: f'{key!r} / {st_.arg_name!r} not in {text!r}')
+      for r in refs_of(st_.value):
+        require(REFNAME_RE.match(r.t[1]) and r.t[1] in text, 'reference-name-repaired',
+                lambda: f'{r.t} from {text!r}')
+      lines.append(key + ('.' + st_.arg_name if st_.arg_name else '') + ' = ' +
+                   canonical_value(st_.value))
+    elif isinstance(st_, config_parser.BlockDeclaration):
+      require(SCOPE_RE.match(st_.scope) and SEL_RE.match(st_.selector),
+              'malformed-name-recovered', lambda: f'{st_[:2]} from {text!r}')
+    elif isinstance(st_, config_parser.ImportStatement):
+      require(SEL_RE.match(st_.module) and (st_.alias is None or IDENT_RE.match(st_.alias)),
+              'malformed-import-recovered', lambda: f'{st_[:3]} from {text!r}')
+      lines.append(st_.format())
+    elif isinstance(st_, config_parser.IncludeStatement):
+      require(isinstance(st_.filename, str), 'include-not-a-string', repr(st_.filename))
+      lines.append('include ' + repr(st_.filename))
+  # canonical re-rendering of what was recovered re-parses to the same statements
+  canon_text = '\n'.join(lines) + '\n'
+  flat = [describe(x) for x in got if not isinstance(x, config_parser.BlockDeclaration)]
+  try:
+    again = [describe(x) for x in stream_of(canon_text)]
+  except Exception as e:  # pylint: disable=broad-except
+    raise Violation('canonical-text-rejected',
+                    f'{type(e).__name__}: {e}\n--- recovered from {text!r}:\n{canon_text}')
+  require(again == flat, 'canonical-reparse-differs',
+          lambda: f'{flat} vs {again}\n--- source {text!r}\n--- canonical:\n{canon_text}')
+  labels = ['kind:fuzz', 'fuzz:rejected' if rejected else 'fuzz:accepted',
+            'fuzz:statements>=1' if got else 'fuzz:no-statement']
+  return ok(labels, bool(got))
+
+
 def check_case(case):
   if case['kind'] == 'layout':
     return check_layout(case)
+  if case['kind'] == 'fuzz':
+    return check_fuzz(case)
   return check_nearmiss(case)
+
+
+def fuzz_campaigns(tier, seed):
+  """Coverage-guided campaigns (atheris) over arbitrary bytes with check_fuzz as the oracle."""
+  from vf.fuzz import plans  # pylint: disable=g-import-not-at-top
+  return plans.run('vf.fuzz.c03', lambda text: {'kind': 'fuzz', 'text': text}, check_case, tier,
+                   seed, plans.C03_SEEDS, plans.C03_TOKENS, quick_runs=20000, max_len=160)
+
+
+EXTRA = [fuzz_campaigns]
 
 
 # ------------------------------------------------------------------------------ strategies
